@@ -2,6 +2,7 @@ use crate::fw::{Ctx, Outcome};
 
 pub mod c02;
 pub mod c02_e2e;
+pub mod c03;
 pub mod c04;
 pub mod c06;
 pub mod c07;
@@ -15,6 +16,7 @@ pub mod c16;
 pub mod c17;
 pub mod c18;
 pub mod c19;
+pub mod c20;
 pub mod e2e;
 pub mod retry_e2e;
 pub mod smoke;
@@ -25,6 +27,7 @@ pub fn dispatch(ctx: &Ctx) -> Option<Outcome> {
             Some("b") => c02_e2e::run_b(ctx),
             _ => c02::run(ctx),
         },
+        "C03" => c03::run(ctx),
         "C04" => c04::run(ctx),
         "C06" => c06::run(ctx),
         "C07" => c07::run(ctx),
@@ -38,6 +41,7 @@ pub fn dispatch(ctx: &Ctx) -> Option<Outcome> {
         "C17" => c17::run(ctx),
         "C18" => c18::run(ctx),
         "C19" => c19::run(ctx),
+        "C20" => c20::run(ctx),
         "smoke" => smoke::run(ctx),
         "wire-selftest" => {
             let mut o = Outcome::new();
